@@ -102,7 +102,11 @@ def _holds(m, ch):
     return bool(m(ch)) if callable(m) else m == ch
 
 
+import re as _re
+_NUM = _re.compile(r'-?(\d+\.?\d*|\.\d+)\Z')
+
 HELPERS = {
+    'numshape': lambda s, a, b: bool(_NUM.match(s[a:b])) and all(c in '-.' or c.isdecimal() for c in s[a:b]),
     'holds': _holds,
     'chars_hold': lambda s, a, b, m: all(_holds(m, s[i]) for i in range(a, b)),
     'same_str': lambda a, b: a == b,
@@ -184,7 +188,7 @@ def build_value(desc, T=None):
         if '__class__' in desc:
             cc = REG.classes.get(desc['__class__'])
             m = load_module(cc.module)
-            klass = getattr(m, cc.name)
+            klass = getattr(m, cc.real)
             obj = klass.__new__(klass)
             for k, v in desc.items():
                 if k.startswith('__'):
